@@ -162,6 +162,29 @@ def r06_2_order(ctx):
                 r.check(set(mine) == {('<attributes> is None', True)}, 'the result of _yatiml_attributes() is refused exactly when it is None',
                         g.key('attributes-none-test'), g.loc(rs), 'Representer.__call__ refuses the result of _yatiml_attributes() under %s: e.g. an '
                         'empty dict, which should be dumped as {}' % sorted(set(mine)))
+        # E11b: what the mapping holds on the path without _yatiml_attributes(), whatever the spelling (pair list + OrderedDict,
+        # insert loop + update, ...): the parameters of __init__ (minus self, minus _yatiml_extra) with their attribute values, in
+        # order, then - when the class takes _yatiml_extra - the entries of that mapping
+        from ..dictflow import OrderedFlow, cond_truth, K as _K
+        e11 = False
+        if isinstance(a, ast.Name):
+            F = OrderedFlow(g.fi.node, g.alpha)
+            v_ = F.env.get(a.id)
+            if v_ is not None and a.id not in F.bad and v_.kind == 'OrderedDict' and len(v_.parts) == 2:
+                A_, B_ = sorted(v_.parts, key=lambda p_: p_.seq)
+                names_src = 'inspect.getfullargspec(%s.__init__).args[1:]' % data
+                no_custom = ("hasattr(%s, '_yatiml_attributes')" % data, False)
+                okA = (not A_.whole and A_.source == names_src and A_.key == _K and A_.value == 'getattr(%s, %s)' % (data, _K)
+                       and cond_truth(A_.cond, '_yatiml_extra', {}) is False and cond_truth(A_.cond, 'some_name', {}) is True
+                       and cond_truth(A_.cond, 'self', {}) is True and A_.when == (no_custom,))
+                okB = (B_.whole and B_.source == '%s._yatiml_extra' % data
+                       and B_.when == (no_custom, ("'_yatiml_extra' in %s" % names_src, True)))
+                e11 = okA and okB and not any(F.bad.get(x) for x in F.env)
+        if e11 and custom:
+            r.ok('the mapping is %s._yatiml_attributes() or an OrderedDict of the attribute pairs (E11b)' % data)
+            r.ok('attribute pairs = (name, getattr(%s, name)) for the parameters of __init__ after self, minus _yatiml_extra, in order (E11b)' % data)
+            r.ok('extras (%s._yatiml_extra entries) come after the parameters, when the class takes _yatiml_extra (E11b)' % data)
+            continue
         r.check(custom and bool(od), 'the mapping is %s._yatiml_attributes() or an OrderedDict of the attribute pairs' % data,
                 g.key('mapping-source'), g.loc(c), 'the represented mapping is %s' % srcs[:3])
         for o in od:
